@@ -8,7 +8,16 @@ suffix = sys.argv[2] if len(sys.argv) > 2 else ""      # e.g. "-r2" for a second
 wt = "/tmp/seed-%s%s" % (pid, suffix)
 out = "/tmp/seed-%s%s-out" % (pid, suffix)
 EMPH = ""
-if suffix:
+if suffix == "-r3":
+    EMPH = (" For this round, look for changes of these kinds (pick two different kinds): (i) a change in a SHARED lower-level crate (ppv-lite86, block-buffer"
+            " usage, threefish) that only one consumer or one code path of this property notices; (ii) a change that is invisible through the most common trait"
+            " (`digest::Digest` / `StreamCipher`) but visible through another public trait or inherent method of the same type (`FixedOutput`, `FixedOutputDirty`,"
+            " `Reset`, `DynDigest`, `StreamCipherSeek`, `Clone`, `Default`, `PartialEq`, the `guts` API, `Machine` methods), or only after the object was used once;"
+            " (iii) a change that depends on the VALUE of an argument in a narrow range (a counter or length near a power of two other than 2^32, an odd/even word,"
+            " a particular nonce or key word pattern, a rotation amount or lane index at the edge of its range); (iv) a change under `cfg(not(feature = \"std\"))`,"
+            " `cfg(target_feature = ...)`, `cfg(debug_assertions)` or a non-default cargo feature; (v) an `unsafe` pointer / slice-length slip that reads or writes"
+            " one element too far only for some lengths or alignments.")
+elif suffix:
     EMPH = (" For this round, aim for changes that are hard to notice: ones that need a multi-step sequence of API calls, a state reached only after"
             " an earlier error or boundary, a non-default cargo feature / target feature / back end that the test host never selects, a build profile"
             " (overflow checks on vs off), an unusual integer type or value of an argument, or two sites that are each correct alone.")
